@@ -131,7 +131,7 @@ func runC09(c *engine.Ctx) {
 		PipeEnv: true, BigMaps: p.Draw(4, "cfg:bigmaps") == 3, Signature: true, TypeKey: true, Aliases: true, NonStrEnv: p.Draw(2, "cfg:nonstr") == 1,
 		Timestamps: p.Draw(3, "cfg:ts") == 2, ShareSubtrees: p.Draw(3, "cfg:share") == 2}
 	doc := o.Pipeline()
-	src, format := gen.Render(p, doc, true)
+	src, format := gen.RenderMaybeMerged(p, doc, true)
 	c.Ev("doc", format, len(src), tape.HashString(string(src)))
 	c.Sample = map[string]any{"format": format, "document": truncate(string(src), 1500)}
 	p0, _ := parseDoc(c, "C09.panic", src)
